@@ -31,19 +31,28 @@ def fanout_subobjects():
     try:
         fc = diskcache.FanoutCache(d, shards=3, cull_limit=7)
         shard_dirs = [os.path.join(d, '%03d' % i) for i in range(3)]
-        if fc.cull_limit != 7 or [s.cull_limit for s in fc._shards] != [7, 7, 7]:
+
+        def per_shard(name):
+            """the stored setting of every shard, read through fresh public handles"""
+            out = []
+            for x in shard_dirs:
+                h = diskcache.Cache(x)
+                out.append(getattr(h, name))
+                h.close()
+            return out
+        if fc.cull_limit != 7 or per_shard('cull_limit') != [7, 7, 7]:
             bad.append('a setting given to FanoutCache does not reach every shard / is not readable through the FanoutCache')
-        if fc.reset('cull_limit', 5) != 5 or [s.cull_limit for s in fc._shards] != [5, 5, 5]:
+        if fc.reset('cull_limit', 5) != 5 or per_shard('cull_limit') != [5, 5, 5]:
             bad.append('FanoutCache.reset does not set the value on every shard')
         for i in range(12):
             fc.set(i, i, tag='t' if i % 2 else None)
         fc.create_tag_index()
-        if [s.tag_index for s in fc._shards] != [1, 1, 1] or [_master(x, 'index', 'Cache_tag_rowid') for x in shard_dirs] != [1, 1, 1]:
+        if per_shard('tag_index') != [1, 1, 1] or [_master(x, 'index', 'Cache_tag_rowid') for x in shard_dirs] != [1, 1, 1]:
             bad.append('FanoutCache.create_tag_index did not create the index on every shard')
         if fc.evict('t') != 6 or len(fc) != 6:
             bad.append('evict by tag on a FanoutCache with a tag index did not remove exactly the tagged items')
         fc.drop_tag_index()
-        if [s.tag_index for s in fc._shards] != [0, 0, 0] or [_master(x, 'index', 'Cache_tag_rowid') for x in shard_dirs] != [0, 0, 0]:
+        if per_shard('tag_index') != [0, 0, 0] or [_master(x, 'index', 'Cache_tag_rowid') for x in shard_dirs] != [0, 0, 0]:
             bad.append('FanoutCache.drop_tag_index did not drop the index on every shard')
         # sub-objects
         sub = fc.cache('a/b', cull_limit=3)
@@ -66,7 +75,8 @@ def fanout_subobjects():
         fc2 = diskcache.FanoutCache(d, shards=3)
         if fc2.cache('a/b').get('x') != 1 or list(fc2.deque('q')) != [2, 3] or dict(fc2.index('i')) != {'a': 1, 'b': 2} or len(fc2) != 6:
             bad.append('the contents of a FanoutCache and of its sub-objects do not persist across reopening')
-        if [s.cull_limit for s in fc2._shards] != [5, 5, 5]:
+        fc2.close()
+        if per_shard('cull_limit') != [5, 5, 5]:
             bad.append('a setting changed with FanoutCache.reset does not persist across reopening')
         fc2.close()
     except Exception as e:  # noqa
@@ -176,6 +186,8 @@ def sqlite_pragmas():
         if got != [[(4321,)]]:
             bad.append("a sqlite_ setting is not applied to another thread's connection")
         c2.close()
+    except AttributeError:
+        pass        # the probe reads the connection through a private helper; without it there is nothing to judge
     except Exception as e:  # noqa
         bad.append('pragma probe raised %s: %s' % (type(e).__name__, str(e)[:120]))
     finally:
